@@ -118,7 +118,7 @@ def run_shard(spec, shard):
     from checks import c05
 
     def body(r):
-        g = Q.QGen(r, names=["a", "b", "c", "é"], strings=["", "a", "'", "\n", "\\"], big_ints=True)
+        g = Q.QGen(r, names=["a", "b", "c", "\u00e9"], strings=["", "a", "'", "\n", "\\"], big_ints=True)
         ast = g.query(min_segs=1, max_segs=3)
         if "filter" not in Q.features(ast):
             ast[2].append(["child", [["filter", g.logical(1, 2)]]])
